@@ -55,6 +55,8 @@ pub enum ApiMode {
     Diff,
     /// recipe (harness-written loop) vs built-in try_find on low-level types
     Recipe,
+    /// only the work counters are judged (C19)
+    Counters,
 }
 
 #[derive(Clone)]
@@ -70,6 +72,9 @@ pub struct Opts {
     pub span_len: usize,
     /// check the H2 work counters after every API call (C19)
     pub counters: bool,
+    /// also replay long haystacks (filler^i . pattern . filler^j around the
+    /// vector widths) so that prefilter / packed paths inside the searchers run
+    pub long_templates: bool,
 }
 
 #[derive(Clone)]
@@ -129,6 +134,7 @@ fn finding_violation(rep: &Report, d: &ModelDef, cfg: &str, ex: &Explore, f: &Fi
 }
 
 fn run_explore(
+    cfg: &Cfg,
     sr: &Searcher,
     m: &Model,
     ex: &Explore,
@@ -136,11 +142,12 @@ fn run_explore(
     wit: Option<&mut Vec<Vec<u8>>>,
 ) -> Result<(), Finding> {
     let is_dfa = matches!(sr, Searcher::D(_));
+    let expect_start = [cfg.supports(false), cfg.supports(true)];
     let r = std::panic::catch_unwind(std::panic::AssertUnwindSafe(|| -> Result<(), Finding> {
         match *ex {
             Explore::Find { anchored, earliest } => crate::with_aut!(sr, a => e1::explore_find(a, m, anchored, earliest, st, wit), Ok(())),
             Explore::Walk { anchored } => crate::with_aut!(sr, a => e1::explore_walk(a, m, anchored, st, wit), Ok(())),
-            Explore::Contract => crate::with_aut!(sr, a => e1::explore_contract(a, m.spec.pats.len(), st), Ok(())),
+            Explore::Contract => crate::with_aut!(sr, a => e1::explore_contract(a, m.spec.pats.len(), expect_start, st), Ok(())),
             Explore::Work => crate::with_aut!(sr, a => e1::explore_work(a, is_dfa, st).map(|r| { st.add("max_fail_steps_single_call", 0); let _ = r; }), Ok(())),
             Explore::Joint { .. } => Ok(()),
         }
@@ -152,7 +159,7 @@ fn run_explore(
             // contract explorer, which wraps every call
             let msg = aut::panic_msg(&p);
             let mut st2 = Stats::default();
-            let loc = crate::with_aut!(sr, a => e1::explore_contract(a, m.spec.pats.len(), &mut st2), Ok(()));
+            let loc = crate::with_aut!(sr, a => e1::explore_contract(a, m.spec.pats.len(), expect_start, &mut st2), Ok(()));
             match loc {
                 Err(f) => Err(f),
                 Ok(()) => Err(Finding { what: "panic", witness: vec![], anchored: false, detail: format!("panic during exploration: {}", msg) }),
@@ -199,7 +206,7 @@ pub fn run(rep: &Report, models: &[ModelDef], o: &Opts) {
                 }
                 let w = if first { Some(&mut witnesses) } else { None };
                 st.add("explorations", 1);
-                if let Err(f) = run_explore(sr, &m, ex, st, w) {
+                if let Err(f) = run_explore(cfg, sr, &m, ex, st, w) {
                     if f.what == "cap" || f.what == "oracle-self-disagreement" {
                         rep.machinery(format!("{} on {} {} {}", f.what, pats_show(&d.pats), cfg.name(), ex.name()));
                     } else {
@@ -266,7 +273,7 @@ pub fn run(rep: &Report, models: &[ModelDef], o: &Opts) {
                         }
                     }
                     ApiMode::Recipe => check_recipe(&ctx, rep, st, h, s, e, anchored),
-                    ApiMode::None => {}
+                    ApiMode::None | ApiMode::Counters => {}
                 }
                 if o.counters {
                     check_counters(&ctx, rep, st, &o.apis, h, s, e, anchored);
@@ -287,6 +294,28 @@ pub fn run(rep: &Report, models: &[ModelDef], o: &Opts) {
             }
         }
         api::layer2(&alpha, n, o.span_len.min(n), |h, s, e| case(h, s, e, st));
+        // haystacks long enough for the vector code of prefilters, with the
+        // patterns at offsets around the vector widths
+        if o.long_templates && alpha.len() < 256 && d.pats.iter().any(|p| !p.is_empty()) {
+            let bt = universe::bottom(&d.pats);
+            let mut h: Vec<u8> = Vec::with_capacity(128);
+            for p in d.pats.iter().filter(|p| !p.is_empty() && p.len() <= 24).take(3) {
+                for &i in &[0usize, 1, 15, 16, 17, 31, 32, 33, 47] {
+                    for &j in &[0usize, 1, 16, 33] {
+                        h.clear();
+                        h.extend(std::iter::repeat(bt).take(i));
+                        h.extend_from_slice(p);
+                        h.extend(std::iter::repeat(bt).take(j));
+                        st.add("long_template_cases", 1);
+                        case(&h, 0, h.len(), st);
+                        if i > 0 {
+                            case(&h, i, h.len(), st);
+                            case(&h, i - 1, i + p.len(), st);
+                        }
+                    }
+                }
+            }
+        }
         st.add("layer2_maxlen_sum", n as u64);
         if rep.nsamples() < 4 && d.pats.len() >= 2 && i % 13 == 5 {
             rep.sample(sample_of(d, &ctx, &witnesses, &alpha, n));
@@ -443,6 +472,119 @@ fn check_counters(ctx: &ModelCtx, rep: &Report, st: &mut Stats, apis: &[Api], h:
     }
 }
 
+/// A large structured universe explored at table level only (no API
+/// replays): all k-tuples over the pool of strings over `alpha` with length
+/// `minlen..=maxlen`.
+#[derive(Clone)]
+pub struct Deep {
+    pub name: &'static str,
+    pub alpha: &'static [u8],
+    pub minlen: usize,
+    pub maxlen: usize,
+    pub k: usize,
+    pub ci: bool,
+}
+
+impl Deep {
+    pub fn pool(&self) -> Vec<Vec<u8>> {
+        universe::strings(self.alpha, self.maxlen).into_iter().filter(|s| s.len() >= self.minlen).collect()
+    }
+    pub fn size(&self) -> usize {
+        self.pool().len().pow(self.k as u32)
+    }
+}
+
+/// Table-level exploration of every list of the deep universes on a reduced
+/// set of representations (their equivalence with all the others is C04's
+/// business, which runs its joint product on the same universes).
+pub fn run_deep(rep: &Report, deeps: &[Deep], kinds: &[Kind], explores: &[Explore], reps: &[Cfg]) {
+    const CHUNK: usize = 2048;
+    struct W {
+        d: usize,
+        lo: usize,
+        hi: usize,
+    }
+    let pools: Vec<Vec<Vec<u8>>> = deeps.iter().map(|d| d.pool()).collect();
+    let mut items = vec![];
+    for (di, d) in deeps.iter().enumerate() {
+        let n = d.size();
+        let mut lo = 0;
+        while lo < n {
+            items.push(W { d: di, lo, hi: (lo + CHUNK).min(n) });
+            lo += CHUNK;
+        }
+        rep.count("deep_lists_planned", n as u64);
+    }
+    let desc = |i: usize| format!("deep universe {} lists {}..{}", deeps[items[i].d].name, items[i].lo, items[i].hi);
+    crate::report::par_for_desc(rep, items.len(), &desc, |ix, st| {
+        let w = &items[ix];
+        let d = &deeps[w.d];
+        let pool = &pools[w.d];
+        let pn = pool.len();
+        for idx in w.lo..w.hi {
+            let mut pats: Vec<Vec<u8>> = Vec::with_capacity(d.k);
+            let mut x = idx;
+            for _ in 0..d.k {
+                pats.push(pool[x % pn].clone());
+                x /= pn;
+            }
+            for &kind in kinds {
+                let def = ModelDef { name: format!("{}#{}", d.name, idx), pats: pats.clone(), kind, ci: d.ci };
+                let m = Model::new(pats.clone(), kind, d.ci);
+                let mut built: Vec<(Cfg, Searcher)> = vec![];
+                // all requested representations share one noncontiguous NFA build where possible
+                for &c in reps {
+                    match aut::build(&pats, kind, d.ci, c) {
+                        Ok(sr) => built.push((c, sr)),
+                        Err(e) => {
+                            rep.violation(Violation {
+                                property: rep.property.clone(),
+                                what: "build-failed".into(),
+                                case: J::obj().set("engine", J::s("table")).set("patterns", pats_j(&pats)).set("kind", J::s(kind.name())).set("ci", J::Bool(d.ci)).set("cfg", J::s(c.name())).set("explore", J::s("contract")),
+                                detail: format!("{} {} {}: {}", pats_show(&pats), kind.name(), c.name(), e),
+                                tags: vec![],
+                            });
+                        }
+                    }
+                }
+                st.add("deep_models", 1);
+                for ex in explores {
+                    match ex {
+                        Explore::Joint { anchored } => {
+                            let auts: Vec<&Searcher> = built.iter().map(|b| &b.1).collect();
+                            let names: Vec<String> = built.iter().map(|b| b.0.name()).collect();
+                            let r = std::panic::catch_unwind(std::panic::AssertUnwindSafe(|| e1::explore_joint(&auts, &names, kind, m.l, *anchored, st)));
+                            let f = match r {
+                                Ok(Ok(())) => continue,
+                                Ok(Err(f)) => f,
+                                Err(p) => Finding { what: "panic", witness: vec![], anchored: *anchored, detail: format!("panic: {}", aut::panic_msg(&p)) },
+                            };
+                            if f.what == "cap" {
+                                rep.machinery(format!("cap on joint {}", pats_show(&pats)));
+                            } else {
+                                rep.violation(finding_violation(rep, &def, &format!("jointdeep:{}", names.join("+")), ex, &f));
+                            }
+                        }
+                        Explore::Walk { .. } if kind != Kind::Std => {}
+                        Explore::Find { earliest: true, .. } if kind == Kind::Std => {}
+                        _ => {
+                            for (cfg, sr) in &built {
+                                if let Err(f) = run_explore(cfg, sr, &m, ex, st, None) {
+                                    if f.what == "cap" || f.what == "oracle-self-disagreement" {
+                                        rep.machinery(format!("{} on {} {} {}", f.what, pats_show(&pats), cfg.name(), ex.name()));
+                                    } else {
+                                        rep.violation(finding_violation(rep, &def, &cfg.name(), ex, &f));
+                                    }
+                                }
+                            }
+                        }
+                    }
+                }
+            }
+        }
+    });
+}
+
 /// Replay of a "table" case.
 pub fn replay_table(case: &J) -> i32 {
     let pats = crate::report::pats_from_j(case.get("patterns").unwrap_or(&J::Null));
@@ -460,8 +602,12 @@ pub fn replay_table(case: &J) -> i32 {
         let pre = cfgname.ends_with("pre=1");
         let mut srs = vec![];
         let mut names = vec![];
-        for r in low_reps() {
-            let c = Cfg { rep: r, pre };
+        let cfgs: Vec<Cfg> = if let Some(list) = cfgname.strip_prefix("jointdeep:") {
+            list.split('+').filter_map(Cfg::parse).collect()
+        } else {
+            low_reps().into_iter().map(|r| Cfg { rep: r, pre }).collect()
+        };
+        for c in cfgs {
             match aut::build(&pats, kind, ci, c) {
                 Ok(s) => {
                     srs.push(s);
@@ -496,7 +642,7 @@ pub fn replay_table(case: &J) -> i32 {
             return 1;
         }
     };
-    match run_explore(&sr, &m, &ex, &mut st, None) {
+    match run_explore(&cfg, &sr, &m, &ex, &mut st, None) {
         Ok(()) => {
             println!("exploration closed with no finding");
             0
